@@ -398,19 +398,21 @@ func run(ctx *core.Ctx) error {
 	ctx.Ev.Rule = "a case is one write program executed on pdf.Writer under one configuration, reopened with pdf.Reader; non-trivial = the file closes and holds at least two program objects; distinct = distinct (program, configuration)"
 	ctx.Ev.Assume("value ids are recognised by structural equality of what the Reader returns with the concrete values written (the projection function of the harness)")
 	ctx.Ev.Assume("filtered streams on non-seekable sinks are not replayed against the model (the filter's internal buffering decides when the 1024-byte threshold is crossed); C06 covers them")
-	kind := "q"
+	kinds := []string{"q"} // MaxOps 4, two value ids
 	if ctx.Thorough() {
-		kind = "t"
+		kinds = []string{"q", "t"} // + MaxOps 5 with one value id
 	}
-	for _, f := range Families {
-		if _, err := ctx.MustHold(core.TLCOpts{Dir: "file", Module: "PdfWriter", Cfg: "MC_PdfWriter_" + kind + "_" + f.String() + ".cfg", Workers: 12,
-			Timeout: ctx.Dur(8, 30), Constants: fmt.Sprintf("MaxNum=3, Vals={a,b}, MaxOps=%d, OBJSTM=%v, SEEKABLE=%v", ctx.Pick(4, 5), f.ObjStm, f.Seekable)}); err != nil {
-			return err
+	for _, kind := range kinds {
+		for _, f := range Families {
+			if _, err := ctx.MustHold(core.TLCOpts{Dir: "file", Module: "PdfWriter", Cfg: "MC_PdfWriter_" + kind + "_" + f.String() + ".cfg", Workers: 12,
+				Timeout: ctx.Dur(8, 30), Constants: fmt.Sprintf("MaxNum=3, MaxMembers=2, OBJSTM=%v, SEEKABLE=%v; q: Vals={a,b}, MaxOps=4; t: Vals={a}, MaxOps=5", f.ObjStm, f.Seekable)}); err != nil {
+				return err
+			}
 		}
 	}
 	totalEdges, covEdges := 0, 0
 	for _, f := range Families {
-		progs, edges, covered, err := Programs(ctx, f, ctx.Pick(1200, 0))
+		progs, edges, covered, err := Programs(ctx, f, ctx.Pick(1200, 40000))
 		if err != nil {
 			return err
 		}
